@@ -164,7 +164,11 @@ func newSplitEnv(nsh, lim int, epoch uint64) *splitEnv {
 	must(err)
 	v := &splitEnv{dir: dir, es: &epochState{}}
 	v.es.e.Store(epoch)
-	v.e = engine.New(engine.WithLogger(zap.NewNop()))
+	lg := zap.NewNop()
+	if os.Getenv("VERIF_DEBUG") != "" {
+		lg, _ = zap.NewDevelopment()
+	}
+	v.e = engine.New(engine.WithLogger(lg))
 	var fsts []*fstree.FSTree
 	for i := 0; i < nsh; i++ {
 		fst := fstree.New(fstree.WithPath(filepath.Join(dir, "fstree"+itoa(int64(i)))), fstree.WithNoSync(true), fstree.WithDepth(1))
